@@ -79,14 +79,14 @@ Section Mono.
     destruct o as [t|]; [|exact H4].
     destruct (is_elem t); [exact H4|]. destruct (text1 t) as [c|]; [|exact H4].
     destruct ((48 <=? c) && (c <=? 57)); [|exact H4].
-    apply bind_ret in H4 as ([cs st3] & H5 & H6). rewrite (read_sequence_mono _ _ _ _ _ Hg H5). cbn [bind].
-    apply bind_ret in H6 as ([o2 st4] & H7 & H8). rewrite (Hle _ _ H7). cbn [bind]. exact H8.
+    apply bind_ret in H4 as ([cs st3] & H5 & H6). rewrite (read_sequence_mono _ _ _ _ _ Hg H5). cbn [bind]. exact H6.
   Qed.
 
   Lemma invoke_mono g g' nm m st r : (g <= g')%nat ->
     invoke nx g nm m st = Ret r -> invoke nx' g' nm m st = Ret r.
   Proof.
     intros Hg H. destruct m as [a b|p|]; try exact H. destruct p; try exact H.
+    2: { cbn [invoke] in *. apply bind_ret in H as ([z st1] & H1 & H2). rewrite (read_integer_mono _ _ _ _ Hg H1). exact H2. }
     cbn [invoke] in *.
     apply bind_ret in H as ([a st1] & H1 & H2). rewrite (read_integer_mono _ _ _ _ Hg H1). cbn [bind].
     destruct (input (ros st1)) as [|rel rr]; [exact H2|].
@@ -533,11 +533,11 @@ Section Numbers.
   Qed.
 
   Lemma read_integer_digits n u u' tl U B g :
-    nx (St (u :: tl) U B) = Ret (Some u', St tl U B) -> nx (St (u' :: tl) U B) = Ret (Some u', St tl U B) ->
+    nx (St (u :: tl) U B) = Ret (Some u', St tl U B) ->
     stopper u' -> (length (digits n) < g)%nat ->
     read_integer nx g (St (map other (digits n) ++ u :: tl) U B) = Ret (Z.of_N n, St (u' :: tl) U B).
   Proof.
-    intros Hu Hu' Hs Hg. pose proof (digits_value_digits n) as Hv. pose proof (digits_isdig n) as Hd.
+    intros Hu Hs Hg. pose proof (digits_value_digits n) as Hv. pose proof (digits_isdig n) as Hd.
     destruct (digits_cons n) as (c & cs & E). rewrite E in *. clear E.
     inversion Hd as [|c' ds' Hc Hd']; subst. cbn [length] in Hg. destruct g as [|g]; [lia|].
     assert (Hc' := Hc). unfold isdig in Hc'.
@@ -549,8 +549,7 @@ Section Numbers.
     unfold push_tok, set_input. cbn [input ups bottom bind].
     rewrite nx_other. cbn [bind]. change (is_elem (other c)) with false. change (text1 (other c)) with (Some c). cbn iota.
     rewrite Hc'.
-    rewrite (read_seq_digits u u' tl U B Hu Hs cs [] (S g) Hd' ltac:(lia)). cbn [bind rev app].
-    rewrite Hu'. cbn [bind]. unfold push_tok, set_input. cbn [input ups bottom]. now rewrite Hv.
+    rewrite (read_seq_digits u u' tl U B Hu Hs cs [] (S g) Hd' ltac:(lia)). cbn [bind rev app]. now rewrite Hv.
   Qed.
 End Numbers.
 
@@ -607,15 +606,14 @@ Proof.
                  = St (map other (digits (Z.to_N a)) ++ rel_tok r :: map other (digits (Z.to_N b)) ++ esc s_relax :: tl) U B).
   { rewrite Ea. reflexivity. }
   rewrite Hros.
-  rewrite (read_integer_digits g0 (Z.to_N a) (rel_tok r) (rel_tok r)); [| | |apply stopper_rel|exact Hga].
-  2, 3: destruct r; apply nx_plain; reflexivity.
+  rewrite (read_integer_digits g0 (Z.to_N a) (rel_tok r) (rel_tok r)); [| |apply stopper_rel|exact Hga].
+  2: destruct r; apply nx_plain; reflexivity.
   cbn [bind]. replace (ros (St (rel_tok r :: map other (digits (Z.to_N b)) ++ esc s_relax :: tl) U B))
     with (St (rel_tok r :: map other (digits (Z.to_N b)) ++ esc s_relax :: tl) U B) by (destruct r; reflexivity).
   cbn [input]. replace (is_elem (rel_tok r)) with false by (destruct r; reflexivity).
   unfold set_input. cbn [input ups bottom].
-  rewrite (read_integer_digits g0 (Z.to_N b) (esc s_relax) (prim_elem PRelax)); [| | |left; reflexivity|exact Hgb].
+  rewrite (read_integer_digits g0 (Z.to_N b) (esc s_relax) (prim_elem PRelax)); [| |left; reflexivity|exact Hgb].
   2: now apply nx_relax.
-  2: apply nx_elem; reflexivity.
   cbn [bind]. rewrite !Z2N.id by assumption.
   destruct r; cbn [rel_tok ttext other seqb N.eqb Pos.eqb andb relz]; try reflexivity.
   now rewrite Z.gtb_ltb.
@@ -1135,7 +1133,7 @@ Qed.
 
 (* induction on nodes with the hypotheses for the lists inside the constructors the fragments use *)
 Definition structured (n : node) : bool :=
-  match n with NGroup _ | NDef _ _ _ _ _ | NCall _ _ _ | NCond _ _ _ => true | _ => false end.
+  match n with NGroup _ | NDef _ _ _ _ _ | NCall _ _ _ | NCond _ _ _ | NCase _ _ _ => true | _ => false end.
 
 Lemma node_ind2 (P : node -> Prop) :
   (forall n, structured n = false -> P n) ->
@@ -1143,9 +1141,10 @@ Lemma node_ind2 (P : node -> Prop) :
   (forall g nm np d b, Forall P b -> P (NDef g nm np d b)) ->
   (forall nm o a, Forall (Forall P) a -> P (NCall nm o a)) ->
   (forall t th el, Forall P th -> (forall x, el = Some x -> Forall P x) -> P (NCond t th el)) ->
+  (forall a bs el, Forall (Forall P) bs -> (forall x, el = Some x -> Forall P x) -> P (NCase a bs el)) ->
   forall n, P n.
 Proof.
-  intros Hleaf Hgroup Hdef Hcall Hcond. fix IH 1. intros n.
+  intros Hleaf Hgroup Hdef Hcall Hcond Hcase. fix IH 1. intros n.
   pose (go := fix go (l : list node) : Forall P l :=
       match l return Forall P l with [] => Forall_nil P | x :: r => Forall_cons x (IH x) (go r) end).
   pose (go2 := fix go2 (ll : list (list node)) : Forall (Forall P) ll :=
@@ -1157,6 +1156,9 @@ Proof.
   - destruct els as [e|].
     + apply Hcond; [apply go|]. intros x Hx. injection Hx as <-. apply go.
     + apply Hcond; [apply go|]. intros x Hx. discriminate Hx.
+  - destruct els as [e|].
+    + apply Hcase; [apply go2|]. intros x Hx. injection Hx as <-. apply go.
+    + apply Hcase; [apply go2|]. intros x Hx. discriminate Hx.
 Qed.
 
 Lemma Forall_forallb {A} (f : A -> bool) (Q : A -> Prop) l :
@@ -1180,8 +1182,18 @@ Fixpoint w_node (x : node) : bool :=
   | NDef _ _ _ d b => is_none d && forallb w_node b
   | NCall _ o a => is_none o && forallb (forallb w_node) a
   | NCond t th el => f1_test t && forallb w_node th && match el with Some e => forallb w_node e | None => true end
+  | NCase a bs el => case_head a bs && forallb (forallb w_node) bs && match el with Some e => forallb w_node e | None => true end
   | _ => false
   end.
+
+Fixpoint print_ors (l : list (list node)) : list tok :=
+  match l with [] => [] | b :: r => esc s_or :: print b ++ print_ors r end.
+Lemma print_case_node z b0 bs el :
+  print_node (NCase (OLit z) (b0 :: bs) el) =
+  esc s_ifcase :: map other (digits (Z.to_N z)) ++ esc s_relax :: print b0 ++ print_ors bs ++ else_part el ++ [esc s_fi].
+Proof. destruct el; reflexivity. Qed.
+Lemma case_head_inv a bs : case_head a bs = true -> exists z b0 r, a = OLit z /\ bs = b0 :: r /\ (0 <= z)%Z.
+Proof. destruct a as [z|]; [|discriminate]. destruct bs as [|b0 r]; [discriminate|]. cbn. intros H. apply Z.leb_le in H. eauto 6. Qed.
 
 Fixpoint print_args (l : list (list node)) : list tok :=
   match l with [] => [] | a :: r => bg :: print a ++ eg :: print_args r end.
@@ -1199,6 +1211,14 @@ Lemma walks_param_text i n k : walks (flat_map (fun i => [hash_tok; other (48 + 
 Proof.
   apply walks_toks. revert i. induction n as [|n IH]; intros i; cbn [seq flat_map app]; [constructor|].
   constructor; [reflexivity|]. constructor; [reflexivity|apply IH].
+Qed.
+
+Lemma walks_or k : walks [esc s_or] (S k) (S k).
+Proof. intros tl cur done els. reflexivity. Qed.
+Lemma walks_ors r k : Forall (Forall (fun x => forall k, walks (print_node x) k k)) r -> walks (print_ors r) (S k) (S k).
+Proof.
+  induction 1 as [|b r Hb _ IH]; [apply walks_nil|]. cbn [print_ors]. change (esc s_or :: ?l) with ([esc s_or] ++ l).
+  eapply walks_app; [apply walks_or|]. eapply walks_app; [now apply walks_list|exact IH].
 Qed.
 
 Lemma walks_W : forall x, w_node x = true -> forall k, walks (print_node x) k k.
@@ -1228,6 +1248,17 @@ Proof.
     eapply walks_app; [apply walks_list; now apply (Forall_forallb w_node)|].
     eapply walks_app; [|apply walks_fi].
     destruct el as [e|]; [|apply walks_nil].
+    change (esc s_else :: ?l) with ([esc s_else] ++ l). eapply walks_app; [apply walks_else|].
+    apply walks_list. apply (Forall_forallb w_node); [now apply IHel|exact He].
+  - intros a bs el IHbs IHel H k. cbn [w_node] in H. apply andb_true_iff in H as [H He]. apply andb_true_iff in H as [Hh Hbs].
+    destruct (case_head_inv _ _ Hh) as (z & b0 & r & -> & -> & Hz). rewrite print_case_node.
+    pose proof (Forall2_forallb w_node _ _ IHbs Hbs) as HB. inversion HB as [|x l Hb0 Hr]; subst.
+    change (esc s_ifcase :: ?l) with ([esc s_ifcase] ++ l). eapply walks_app; [apply walks_if; reflexivity|].
+    eapply walks_app; [apply walks_toks, Forall_map_tok; intros c; reflexivity|].
+    change (esc s_relax :: ?l) with ([esc s_relax] ++ l). eapply walks_app; [apply walks_tok; reflexivity|].
+    eapply walks_app; [now apply walks_list|]. eapply walks_app; [now apply walks_ors|].
+    eapply walks_app; [|apply walks_fi].
+    destruct el as [e|]; [|apply walks_nil]. cbn [else_part].
     change (esc s_else :: ?l) with ([esc s_else] ++ l). eapply walks_app; [apply walks_else|].
     apply walks_list. apply (Forall_forallb w_node); [now apply IHel|exact He].
 Qed.
@@ -1270,6 +1301,21 @@ Proof.
     destruct el as [e|]; [|reflexivity].
     cbn [depth_after]. change (is_bgroup (esc s_else)) with false. change (is_egroup (esc s_else)) with false. cbn iota.
     rewrite (depth_list e (Forall_forallb w_node _ e (IHel e eq_refl) He)). reflexivity.
+  - intros a bs el IHbs IHel H d. cbn [w_node] in H. apply andb_true_iff in H as [H He]. apply andb_true_iff in H as [Hh Hbs].
+    destruct (case_head_inv _ _ Hh) as (z & b0 & r & -> & -> & Hz). rewrite print_case_node.
+    pose proof (Forall2_forallb w_node _ _ IHbs Hbs) as HB. inversion HB as [|x l Hb0 Hr]; subst.
+    cbn [depth_after]. change (is_bgroup (esc s_ifcase)) with false. change (is_egroup (esc s_ifcase)) with false. cbn iota.
+    rewrite depth_after_app, (depth_flat (map other _)) by (apply Forall_map_tok; intros c; split; reflexivity).
+    cbn [depth_after]. change (is_bgroup (esc s_relax)) with false. change (is_egroup (esc s_relax)) with false. cbn iota.
+    rewrite depth_after_app, (depth_list b0 Hb0), depth_after_app.
+    assert (Hors : forall d, depth_after (print_ors r) d = Some d).
+    { clear -Hr. induction Hr as [|b r Hb _ IH]; intros d; [reflexivity|]. cbn [print_ors depth_after].
+      change (is_bgroup (esc s_or)) with false. change (is_egroup (esc s_or)) with false. cbn iota.
+      now rewrite depth_after_app, (depth_list b Hb), IH. }
+    rewrite Hors, depth_after_app.
+    destruct el as [e|]; [|reflexivity]. cbn [else_part depth_after].
+    change (is_bgroup (esc s_else)) with false. change (is_egroup (esc s_else)) with false. cbn iota.
+    rewrite (depth_list e (Forall_forallb w_node _ e (IHel e eq_refl) He)). reflexivity.
 Qed.
 Lemma depth_Wl l : forallb w_node l = true -> forall d, depth_after (print l) d = Some d.
 Proof. intros H. apply depth_list. apply (Forall_forallb w_node); [|exact H]. apply Forall_forall. intros x _. apply depth_W. Qed.
@@ -1287,6 +1333,10 @@ Proof.
   apply andb_true_iff. split; [now apply (forallb_imp f g)|now apply IH].
 Qed.
 
+Lemma Forall2_inst {A} (P : nat -> A -> Prop) ll d :
+  Forall (Forall (fun x => forall d, P d x)) ll -> Forall (Forall (fun x => P d x)) ll.
+Proof. intros H. eapply Forall_impl; [|exact H]. intros l Hl. eapply Forall_impl; [|exact Hl]. intros x Hx. apply Hx. Qed.
+
 Lemma fa_W : forall x, fa_node x = true -> w_node x = true.
 Proof.
   apply (node_ind2 (fun x => fa_node x = true -> w_node x = true)).
@@ -1298,25 +1348,9 @@ Proof.
   - intros t th el IHth IHel H. cbn [fa_node w_node] in *. apply andb_true_iff in H as [H He]. apply andb_true_iff in H as [Ht Hth].
     rewrite Ht, (forallb_imp fa_node w_node th IHth Hth). destruct el as [e|]; [|reflexivity].
     now apply (forallb_imp fa_node w_node e (IHel e eq_refl)).
-Qed.
-
-Lemma fb_mono n : forall x d, fb_node n x d = true -> fb_node n x (S d) = true.
-Proof.
-  apply (node_ind2 (fun x => forall d, fb_node n x d = true -> fb_node n x (S d) = true)).
-  - intros x Hs d H. destruct x; try discriminate H; try discriminate Hs; exact H.
-  - intros b IH d H. cbn [fb_node] in *. destruct d as [|d]; [discriminate H|].
-    apply (forallb_imp (fun y => fb_node n y d)); [|exact H]. eapply Forall_impl; [|exact IH]. intros y Hy. apply Hy.
-  - intros g nm np dd b IH d H. cbn [fb_node] in *. apply andb_true_iff in H as [H0 H]. rewrite H0. destruct d as [|d]; [discriminate H|].
-    apply (forallb_imp (fun y => fb_node n y d)); [|exact H]. eapply Forall_impl; [|exact IH]. intros y Hy. apply Hy.
-  - intros nm o a IH d H. cbn [fb_node] in *. apply andb_true_iff in H as [H0 H]. rewrite H0. cbn [andb].
-    clear H0. induction IH as [|arg a Harg _ IHa]; [reflexivity|]. cbn [forallb] in *. apply andb_true_iff in H as [H1 H2].
-    apply andb_true_iff. split; [|now apply IHa]. destruct d as [|d]; [discriminate H1|].
-    apply (forallb_imp (fun y => fb_node n y d)); [|exact H1]. eapply Forall_impl; [|exact Harg]. intros y Hy. apply Hy.
-  - intros t th el IHth IHel d H. cbn [fb_node] in *. apply andb_true_iff in H as [Ht H]. rewrite Ht. destruct d as [|d]; [discriminate H|].
-    apply andb_true_iff in H as [Hth He]. cbn [andb]. apply andb_true_iff. split.
-    + apply (forallb_imp (fun y => fb_node n y d)); [|exact Hth]. eapply Forall_impl; [|exact IHth]. intros y Hy. apply Hy.
-    + destruct el as [e|]; [|reflexivity]. apply (forallb_imp (fun y => fb_node n y d)); [|exact He].
-      eapply Forall_impl; [|exact (IHel e eq_refl)]. intros y Hy. apply Hy.
+  - intros a bs el IHbs IHel H. cbn [fa_node w_node] in *. apply andb_true_iff in H as [H He]. apply andb_true_iff in H as [Hh Hbs].
+    rewrite Hh, (forallb2_imp fa_node w_node bs IHbs Hbs). destruct el as [e|]; [|reflexivity].
+    now apply (forallb_imp fa_node w_node e (IHel e eq_refl)).
 Qed.
 
 Lemma fb_W n : forall x d, fb_node n x d = true -> w_node x = true.
@@ -1335,6 +1369,12 @@ Proof.
   - intros t th el IHth IHel d H. cbn [fb_node w_node] in *. apply andb_true_iff in H as [Ht H]. rewrite Ht. destruct d as [|d]; [discriminate H|].
     apply andb_true_iff in H as [Hth He]. cbn [andb]. apply andb_true_iff. split.
     + apply (forallb_imp (fun y => fb_node n y d)); [|exact Hth]. eapply Forall_impl; [|exact IHth]. intros y Hy. apply Hy.
+    + destruct el as [e|]; [|reflexivity]. apply (forallb_imp (fun y => fb_node n y d)); [|exact He].
+      eapply Forall_impl; [|exact (IHel e eq_refl)]. intros y Hy. apply Hy.
+  - intros a bs el IHbs IHel d H. cbn [fb_node w_node] in *. apply andb_true_iff in H as [Hh H]. rewrite Hh. destruct d as [|d]; [discriminate H|].
+    apply andb_true_iff in H as [Hbs He]. cbn [andb]. apply andb_true_iff. split.
+    + apply (forallb2_imp (fun y => fb_node n y d)); [|exact Hbs].
+      apply (Forall2_inst (fun d x => fb_node n x d = true -> w_node x = true)). exact IHbs.
     + destruct el as [e|]; [|reflexivity]. apply (forallb_imp (fun y => fb_node n y d)); [|exact He].
       eapply Forall_impl; [|exact (IHel e eq_refl)]. intros y Hy. apply Hy.
 Qed.
@@ -1356,6 +1396,9 @@ Proof.
   - intros t th el IHth IHel H. cbn [f2_node w_node] in *. apply andb_true_iff in H as [H He]. apply andb_true_iff in H as [Ht Hth].
     rewrite Ht, (forallb_imp f2_node w_node th IHth Hth). destruct el as [e|]; [|reflexivity].
     now apply (forallb_imp f2_node w_node e (IHel e eq_refl)).
+  - intros a bs el IHbs IHel H. cbn [f2_node w_node] in *. apply andb_true_iff in H as [H He]. apply andb_true_iff in H as [Hh Hbs].
+    rewrite Hh, (forallb2_imp f2_node w_node bs IHbs Hbs). destruct el as [e|]; [|reflexivity].
+    now apply (forallb_imp f2_node w_node e (IHel e eq_refl)).
 Qed.
 Lemma f2_Wl l : forallb f2_node l = true -> forallb w_node l = true.
 Proof. apply forallb_imp. apply Forall_forall. intros x _. apply f2_W. Qed.
@@ -1370,6 +1413,9 @@ Proof.
   - intros nm o a _ H. exact H.
   - intros t th el IHth IHel H. cbn [fa_node f2_node] in *. apply andb_true_iff in H as [H He]. apply andb_true_iff in H as [Ht Hth].
     rewrite Ht, (forallb_imp fa_node f2_node th IHth Hth). destruct el as [e|]; [|reflexivity].
+    now apply (forallb_imp fa_node f2_node e (IHel e eq_refl)).
+  - intros a bs el IHbs IHel H. cbn [fa_node f2_node] in *. apply andb_true_iff in H as [H He]. apply andb_true_iff in H as [Hh Hbs].
+    rewrite Hh, (forallb2_imp fa_node f2_node bs IHbs Hbs). destruct el as [e|]; [|reflexivity].
     now apply (forallb_imp fa_node f2_node e (IHel e eq_refl)).
 Qed.
 Lemma fa_f2l l : forallb fa_node l = true -> forallb f2_node l = true.
@@ -1395,6 +1441,9 @@ Proof.
     now rewrite (map_id_forallb (lower k) (forallb fa_node) args IH Ha).
   - apply andb_true_iff in Hx as [Hx He]. apply andb_true_iff in Hx as [_ Hth]. rewrite (IH thn Hth).
     destruct els as [e|]; [|reflexivity]. cbn [option_map]. now rewrite (IH e He).
+  - apply andb_true_iff in Hx as [Hx He]. apply andb_true_iff in Hx as [_ Hbs].
+    rewrite (map_id_forallb (lower k) (forallb fa_node) branches IH Hbs).
+    destruct els as [e|]; [|reflexivity]. cbn [option_map]. now rewrite (IH e He).
 Qed.
 
 Lemma subst_A k args : forall l, forallb fa_node l = true -> subst k args l = l.
@@ -1409,6 +1458,9 @@ Proof.
   - apply andb_true_iff in Hx as [Ho Ha]. destruct opt; [discriminate Ho|]. cbn [option_map].
     now rewrite (map_id_forallb (subst k args) (forallb fa_node) args0 IH Ha).
   - apply andb_true_iff in Hx as [Hx He]. apply andb_true_iff in Hx as [_ Hth]. rewrite (IH thn Hth).
+    destruct els as [e|]; [|reflexivity]. cbn [option_map]. now rewrite (IH e He).
+  - apply andb_true_iff in Hx as [Hx He]. apply andb_true_iff in Hx as [_ Hbs].
+    rewrite (map_id_forallb (subst k args) (forallb fa_node) branches IH Hbs).
     destruct els as [e|]; [|reflexivity]. cbn [option_map]. now rewrite (IH e He).
 Qed.
 
@@ -1558,6 +1610,31 @@ Section Subst.
         apply xp_app; [apply xp_toks, inert_test|]. apply xp_app; [exact T1|].
         apply xp_app; [exact E1|apply xp_tok, inert_esc; cbv; congruence].
       + cbn [forallb fa_node]. now rewrite Ht, T2, E2.
+    - intros a bs el IHbs IHel d H. cbn [fb_node] in H. apply andb_true_iff in H as [Hh H]. destruct d as [|d]; [discriminate H|].
+      apply andb_true_iff in H as [Hbs He]. destruct (case_head_inv _ _ Hh) as (z & b0 & r & -> & -> & Hz).
+      inversion IHbs as [|x l IHb0 IHr]; subst. cbn [forallb] in Hbs. apply andb_true_iff in Hbs as [Hb0 Hr].
+      destruct (Q_list b0 d IHb0 Hb0) as [B1 B2].
+      assert (R : xp ps (print_ors r) (print_ors (map (subst (S d) args) r)) /\ forallb (forallb fa_node) (map (subst (S d) args) r) = true).
+      { clear -IHr Hr Hargs Hn9. induction IHr as [|b r Hb _ IHr']; [split; [apply xp_nil|reflexivity]|].
+        cbn [forallb] in Hr. apply andb_true_iff in Hr as [H1 H2].
+        destruct (Q_list b d Hb H1) as [Q1 Q2]. destruct (IHr' H2) as [I1 I2].
+        cbn [map print_ors forallb]. rewrite Q2, I2. split; [|reflexivity].
+        change (esc s_or :: ?l) with ([esc s_or] ++ l). apply xp_app; [apply xp_tok, inert_esc; cbv; congruence|].
+        apply xp_app; [exact Q1|exact I1]. }
+      destruct R as [R1 R2].
+      assert (E : xp ps (else_part el) (else_part (option_map (subst (S d) args) el)) /\
+                  match option_map (subst (S d) args) el with Some e => forallb fa_node e | None => true end = true).
+      { destruct el as [e|]; [|split; [apply xp_nil|reflexivity]]. destruct (Q_list e d (IHel e eq_refl) He) as [E1 E2].
+        cbn [option_map else_part]. split; [|exact E2]. change (esc s_else :: ?l) with ([esc s_else] ++ l).
+        apply xp_app; [apply xp_tok, inert_esc; cbv; congruence|exact E1]. }
+      destruct E as [E1 E2]. unfold Q, sbn. cbn [map]. split.
+      + cbn [print]. rewrite !print_case_node, app_nil_r.
+        change (esc s_ifcase :: ?l) with ([esc s_ifcase] ++ l). apply xp_app; [apply xp_tok, inert_esc; cbv; congruence|].
+        apply xp_app; [apply xp_toks, Forall_map_tok, inert_other|].
+        change (esc s_relax :: ?l) with ([esc s_relax] ++ l). apply xp_app; [apply xp_tok, inert_esc; cbv; congruence|].
+        apply xp_app; [exact B1|]. apply xp_app; [exact R1|].
+        apply xp_app; [exact E1|apply xp_tok, inert_esc; cbv; congruence].
+      + cbn [forallb fa_node case_head]. apply Z.leb_le in Hz. now rewrite Hz, B2, R2, E2.
   Qed.
 
   Lemma subst_print d b : forallb (fun y => fb_node n y d) b = true ->
@@ -1633,6 +1710,12 @@ Proof.
   - intros t th el IHth IHel d H. cbn [fb_node fa_node] in *. apply andb_true_iff in H as [Ht H]. rewrite Ht. destruct d as [|d]; [discriminate H|].
     apply andb_true_iff in H as [Hth He]. cbn [andb]. apply andb_true_iff. split.
     + apply (forallb_imp (fun y => fb_node O y d)); [|exact Hth]. eapply Forall_impl; [|exact IHth]. intros y Hy. apply Hy.
+    + destruct el as [e|]; [|reflexivity]. apply (forallb_imp (fun y => fb_node O y d)); [|exact He].
+      eapply Forall_impl; [|exact (IHel e eq_refl)]. intros y Hy. apply Hy.
+  - intros a bs el IHbs IHel d H. cbn [fb_node fa_node] in *. apply andb_true_iff in H as [Hh H]. rewrite Hh. destruct d as [|d]; [discriminate H|].
+    apply andb_true_iff in H as [Hbs He]. cbn [andb]. apply andb_true_iff. split.
+    + apply (forallb2_imp (fun y => fb_node O y d)); [|exact Hbs].
+      apply (Forall2_inst (fun d x => fb_node O x d = true -> fa_node x = true)). exact IHbs.
     + destruct el as [e|]; [|reflexivity]. apply (forallb_imp (fun y => fb_node O y d)); [|exact He].
       eapply Forall_impl; [|exact (IHel e eq_refl)]. intros y Hy. apply Hy.
 Qed.
@@ -1711,6 +1794,103 @@ Proof.
     rewrite (step_macro _ _ _ (mname nm) (mean_of m)); [|reflexivity|reflexivity|exact Hlk].
     unfold mean_of. rewrite En. cbn [invoke input].
     rewrite (definition_invoke_params (S k) (print (m_body m)) a r ltac:(lia) Hlen Hdep), Hx. reflexivity.
+Qed.
+
+(* ---- \ifcase ---- *)
+Section Unfold3.
+  Context (f : nat) (e : env) (out : list Z) (rest : list node) (budget : nat) (Hs : steps e = S budget).
+  Let e1 := tick e budget.
+  Definition case_branch (z : Z) (bs : list (list node)) (el : option (list node)) : list node :=
+    if ((0 <=? z) && (z <? Z.of_nat (length bs)))%Z then nth (Z.to_nat z) bs [] else match el with Some x => x | None => [] end.
+  Lemma eval_case z bs el : eval (S f) e out (NCase (OLit z) bs el :: rest) =
+    match eval f e1 out (case_branch z bs el) with Ok e' out' => eval f e' out' rest | other => other end.
+  Proof. cbn [eval]. now rewrite Hs. Qed.
+  Lemma gsafe_case z bs el : gsafe (S f) e out (NCase (OLit z) bs el :: rest) =
+    gsafe f e1 out (case_branch z bs el) &&
+    match eval f e1 out (case_branch z bs el) with Ok e' out' => gsafe f e' out' rest | _ => true end.
+  Proof. cbn [gsafe]. now rewrite Hs. Qed.
+End Unfold3.
+
+Fixpoint fin (r : list (list node)) (c : list tok) (cs : list (list tok)) : list (list tok) * list tok :=
+  match r with [] => (cs, c) | b :: r' => fin r' (print b) (cs ++ [c]) end.
+Lemma fin_spec r : forall c cs, fst (fin r c cs) ++ [snd (fin r c cs)] = cs ++ c :: map print r.
+Proof. induction r as [|b r IH]; intros c cs; [reflexivity|]. cbn [fin map]. rewrite IH, <- app_assoc. reflexivity. Qed.
+
+Lemma tscan_ors r : Forall (fun b => forall k, walks (print b) k k) r -> forall c cs T,
+  tscan_go (print_ors r ++ T) O (rev c) (rev cs) None
+  = tscan_go T O (rev (snd (fin r c cs))) (rev (fst (fin r c cs))) None.
+Proof.
+  induction 1 as [|b r Hb _ IH]; intros c cs T; [reflexivity|].
+  cbn [print_ors app tscan_go]. change (classify (esc s_or)) with KOr. cbn iota.
+  rewrite <- app_assoc, (Hb O), app_nil_r, rev_involutive. cbn [fin].
+  replace (c :: rev cs) with (rev (cs ++ [c])) by (rewrite rev_app_distr; reflexivity). apply IH.
+Qed.
+
+Lemma nth_all X b0 r idx : (idx < S (length r))%nat ->
+  nth idx ((X ++ print b0) :: map print r) [] = (if Nat.eqb idx 0 then X else []) ++ print (nth idx (b0 :: r) []).
+Proof.
+  intros H. destruct idx as [|k]; [reflexivity|]. cbn [nth Nat.eqb app].
+  change (@nil tok) with (print []). now rewrite map_nth.
+Qed.
+
+Lemma tprocess_case X b0 r el tl z :
+  Forall (fun t => classify t = KTok 0%Z) X -> (forall k, walks (print b0) k k) ->
+  Forall (fun b => forall k, walks (print b) k k) r -> (forall e, el = Some e -> forall k, walks (print e) k k) -> (0 <= z)%Z ->
+  tprocess (WCase z) (X ++ print b0 ++ print_ors r ++ else_part el ++ esc s_fi :: tl)
+  = Some (((if (z =? 0)%Z then X else []) ++ print (case_branch z (b0 :: r) el)) ++ tl).
+Proof.
+  intros HX Hb0 Hr Hel Hz. unfold tprocess, tscan.
+  assert (Hw : walks (X ++ print b0) O O) by (eapply walks_app; [now apply walks_toks|apply Hb0]).
+  rewrite app_assoc, Hw, app_nil_r. change (@nil (list tok)) with (rev (@nil (list tok))).
+  rewrite <- app_assoc, (tscan_ors r Hr (X ++ print b0) []).
+  pose proof (fin_spec r (X ++ print b0) []) as Hfin. cbn [app] in Hfin.
+  set (cs' := fst (fin r (X ++ print b0) [])) in *. set (c' := snd (fin r (X ++ print b0) [])) in *.
+  set (ALL := (X ++ print b0) :: map print r) in *.
+  assert (Hlen : length ALL = S (length r)) by (subst ALL; cbn; now rewrite map_length).
+  assert (Hsel : forall extra, (length extra = 1)%nat ->
+            nth (if ((0 <=? z) && (z <? Z.of_nat (length ALL)))%Z then Z.to_nat z else length ALL) (ALL ++ extra) []
+            = (if (z =? 0)%Z then X else []) ++
+              (if ((0 <=? z) && (z <? Z.of_nat (S (length r))))%Z then print (nth (Z.to_nat z) (b0 :: r) []) else nth O extra [])).
+  { intros extra Hex. rewrite Hlen. destruct ((0 <=? z) && (z <? Z.of_nat (S (length r))))%Z eqn:Er.
+    - rewrite app_nth1 by lia. subst ALL. rewrite nth_all by lia.
+      destruct (Z.eqb_spec z 0) as [->|Hz0]; [reflexivity|]. destruct (Z.to_nat z) eqn:Ez; [lia|reflexivity].
+    - rewrite app_nth2 by lia. rewrite Hlen, Nat.sub_diag.
+      destruct (Z.eqb_spec z 0) as [->|Hz0]; [cbn in Er; discriminate Er|reflexivity]. }
+  unfold case_branch. cbn [length].
+  destruct el as [e|]; cbn [else_part app].
+  - cbn [tscan_go]. change (classify (esc s_else)) with KElse. cbn iota.
+    rewrite (Hel e eq_refl O), app_nil_r. cbn [tscan_go]. change (classify (esc s_fi)) with KFi. cbn iota.
+    unfold tselect. cbn [telse tcases trest]. rewrite !rev_involutive. cbn [rev]. rewrite rev_involutive, rev_length, Hfin.
+    replace (S (length cs')) with (length ALL) by (rewrite <- Hfin, app_length; cbn; lia).
+    rewrite (Hsel [print e] eq_refl). cbn [nth].
+    destruct ((0 <=? z) && (z <? Z.of_nat (S (length r))))%Z; now rewrite <- ?app_assoc.
+  - cbn [tscan_go]. change (classify (esc s_fi)) with KFi. cbn iota.
+    unfold tselect. cbn [telse tcases trest]. rewrite !rev_involutive. cbn [rev]. rewrite rev_involutive, Hfin.
+    rewrite (Hsel [[]] eq_refl). cbn [nth].
+    destruct ((0 <=? z) && (z <? Z.of_nat (S (length r))))%Z; now rewrite <- ?app_assoc.
+Qed.
+
+Lemma exec_case G fs U B z b0 r el tl : Rfg G fs U B -> (0 <= z)%Z ->
+  (forall k, walks (print b0) k k) -> Forall (fun b => forall k, walks (print b) k k) r ->
+  (forall e, el = Some e -> forall k, walks (print e) k k) ->
+  exists X, Forall (fun x => is_elem x = true) X /\
+  exec (St (print_node (NCase (OLit z) (b0 :: r) el) ++ tl) U B) []
+       (St (X ++ print (case_branch z (b0 :: r) el) ++ tl) U B).
+Proof.
+  intros HR Hz Hb0 Hr Hel. exists (if (z =? 0)%Z then [prim_elem PRelax] else []).
+  split; [destruct (z =? 0)%Z; [constructor; [reflexivity|constructor]|constructor]|].
+  set (la := length (digits (Z.to_N z))).
+  eapply (ex_cont (S (S la))); [|apply ex_refl].
+  rewrite print_case_node. cbn [app]. rewrite <- app_assoc. cbn [app].
+  rewrite (step_macro _ _ _ s_ifcase (MPrim PIfcase)); [|reflexivity|reflexivity|apply (prim_lookupg G fs); [exact HR|not_mname|reflexivity]].
+  cbn [invoke].
+  rewrite (read_integer_digits la (Z.to_N z) (esc s_relax) (prim_elem PRelax)); [| |left; reflexivity|subst la; lia].
+  2: { apply nx_relax. apply (prim_lookupg G fs); [exact HR|not_mname|reflexivity]. }
+  cbn [bind input]. rewrite Z2N.id by exact Hz.
+  repeat (rewrite <- app_assoc; cbn [app]).
+  change (prim_elem PRelax :: print b0 ++ ?l) with ([prim_elem PRelax] ++ print b0 ++ l).
+  rewrite (tprocess_case [prim_elem PRelax] b0 r el tl z); [|constructor; [reflexivity|constructor]|exact Hb0|exact Hr|exact Hel|exact Hz].
+  unfold set_input. cbn [ups bottom]. rewrite <- app_assoc. reflexivity.
 Qed.
 
 (* ---- the simulation on F2 ---- *)
@@ -1822,6 +2002,29 @@ Proof.
       replace (text_of (if eval_test (tick e budget) t then X else [])) with (@nil tok)
         by (destruct (eval_test (tick e budget) t); [now rewrite text_of_elems|reflexivity]).
       cbn [app]. now rewrite app_assoc.
+  - (* \ifcase *)
+    cbn [f2_node] in Hn. apply andb_true_iff in Hn as [Hn Hel]. apply andb_true_iff in Hn as [Hh Hbs].
+    destruct (case_head_inv _ _ Hh) as (z & b0 & r & -> & -> & Hz).
+    rewrite (eval_case f e out ns budget Hs) in Hev. rewrite (gsafe_case f e out ns budget Hs) in Hgs.
+    apply andb_true_iff in Hgs as [Hg1 Hg2].
+    set (br := case_branch z (b0 :: r) els) in *.
+    destruct (eval f (tick e budget) out br) as [e2 out2| |] eqn:Eb; try discriminate Hev.
+    pose proof (forallb2_Forall _ _ Hbs) as HbsF. inversion HbsF as [|x l Hb0 Hr]; subst.
+    assert (Hel' : forall e0, els = Some e0 -> forallb f2_node e0 = true) by (intros e0 ->; exact Hel).
+    destruct (exec_case good2 _ U B z b0 r els (print ns ++ rest) HR1 Hz (walks_Wl _ (f2_Wl _ Hb0))
+               (Forall_impl _ (fun b Hb => walks_Wl b (f2_Wl b Hb)) Hr)
+               (fun e0 He0 => walks_Wl _ (f2_Wl _ (Hel' e0 He0)))) as (X & HX & Hex0).
+    assert (Hbr : forallb f2_node br = true).
+    { subst br. unfold case_branch. destruct ((0 <=? z) && (z <? Z.of_nat (length (b0 :: r))))%Z.
+      - generalize (Z.to_nat z). clear -HbsF. induction HbsF as [|b l Hb _ IHl]; intros [|k]; try reflexivity; [exact Hb|apply IHl].
+      - destruct els as [x|]; [now apply Hel'|reflexivity]. }
+    destruct (IH _ _ _ _ _ Hbr Eb Hg1 U B (print ns ++ rest) HR1) as (T1 & U1 & B1 & Hex1 & HR1' & Hlen1 & Htxt1).
+    destruct (IH _ _ _ _ _ Hns Hev Hg2 U1 B1 rest HR1') as (T2 & U2 & B2 & Hex2 & HR2' & Hlen2 & Htxt2).
+    exists (X ++ T1 ++ T2), U2, B2. repeat split; [|exact HR2'|lia|].
+    + eapply (exec_trans _ []); [exact Hex0|]. eapply exec_trans; [|eapply exec_trans; [exact Hex1|exact Hex2]].
+      clear -HX. induction HX as [|x X Hx _ IHX]; [apply ex_refl|]. cbn [app].
+      eapply (ex_yield O); [now apply step_elem|exact IHX].
+    + rewrite Htxt2, Htxt1, !text_of_app, (text_of_elems X HX). cbn [app]. now rewrite app_assoc.
 Qed.
 
 Theorem engine_simulates_F2 fuel p e out :
